@@ -15,7 +15,15 @@ What the networks are aimed at (the case splits of the undo layers):
   * several distance constraints on the same ordered pair of IDL / RDL time points with different distances, both
     directions, negative cycles possible; same chains;
   * OV variables over overlapping value sets with equalities;
-  * binary implications between atoms of different theories, so that propagation chains cross the theories.
+  * binary implications between atoms of different theories, so that propagation chains cross the theories;
+  * GADGETS (one or more per network, every theory): a trigger d with clauses d -> l1, d -> l2 (, d -> l3) where l1, l2, l3
+    tighten the SAME LRA bound / IDL cell / RDL cell / OV domain (directly, or - difference logics - through a path over a
+    third time point), so that assuming d updates it two or more times WITHIN ONE decision level; an older, looser
+    l0 on the same bound triggered by d0 (to be assumed at a LOWER level: the pop has to give back l0's value, not +-inf
+    and not the intermediate one); and two conflict makers whose learnt clause backjumps below d's level (a propositional
+    one: e -> f, e & f -> !d0; a theory one: e2 -> a literal contradicting l0).  history() runs the scenarios
+    [d0] d [x] followed by pop / next() / the conflict; the check counts, from the harness's exact "mu" statistics, how
+    many undone levels really had such multiple updates, per theory and per way of undoing.
 """
 import queue
 import subprocess
@@ -116,6 +124,7 @@ class Net:
         self.atoms = []         # (theory, literal index) of every non constant atom literal
         self.ladders = []       # lists of literal indexes: assigning them in order tightens ONE bound / cell step by step
         self.ov_lits = []
+        self.gadgets = []       # dicts th, d0, d, e, e2, rungs
         self.dead = False
         self.nvars = 1
 
@@ -124,8 +133,9 @@ LRA_CONST = [-3, -2, -1, 0, 1, 2, 3, 4, 5, 6, Fraction(1, 2), Fraction(5, 2), Fr
 OPS = ["lt", "leq", "geq", "gt"]
 
 
-def build(rng, drv, small=False):
-    """Constructs a random network on the live harness `drv`; returns Net."""
+def build(rng, drv, small=False, gadget_ths=None):
+    """Constructs a random network on the live harness `drv`; returns Net.  gadget_ths: theories that get a gadget
+    (default: one or two at random)."""
     net = Net()
 
     def do(cmd):
@@ -305,12 +315,104 @@ def build(rng, drv, small=False):
             if l is not None and l > 1:
                 net.atoms.append(("ov", l))
 
+
+    # --- gadgets ---------------------------------------------------------------------------------------------------
+    if gadget_ths is None:
+        gadget_ths = rng.sample(["lra", "idl", "rdl", "ov"], rng.choice([1, 1, 2]))
+    gclauses = []
+    for gth in gadget_ths:
+        if net.dead:
+            break
+
+        def newb():
+            return 2 * int(do("bv")["rc"]) + 1
+        rungs, contra = [], None     # rungs: loosest first; contra: a literal contradicting rungs[0]
+        if gth == "lra":
+            if rng.random() < 0.5 or not exprs:
+                e = [(int(do("lv")["rc"]), 1)]
+            else:
+                e = rng.choice(exprs)
+            up = rng.random() < 0.6
+            c0 = rng.randint(4, 9)
+            cs = [Fraction(c0)]
+            for _ in range(3):
+                cs.append(cs[-1] - rng.choice([1, 1, 2, Fraction(1, 2)]))
+            if not up:
+                cs = [-c for c in cs]
+            for c in cs:
+                op = rng.choice(["leq", "leq", "lt"]) if up else rng.choice(["geq", "geq", "gt"])
+                rungs.append(lit_of(do("la %s %s | %s" % (op, lin(e), lin([], c)))))
+            contra = lit_of(do("la %s %s | %s" % ("geq" if up else "leq", lin(e), lin([], cs[0] + (1 if up else -1)))))
+        elif gth in ("idl", "rdl"):
+            c = "i" if gth == "idl" else "r"
+            def tp():
+                return int(do(c + "v")["rc"])
+            a, b = tp(), tp()
+            if rng.random() < 0.3:
+                a = 0                    # the cell is a bound of b
+            d0 = rng.randint(6, 12)
+            ds = [d0]
+            for _ in range(3):
+                ds.append(ds[-1] - rng.randint(1, 3))
+            def edge(f, t, d, exact=False):
+                if c == "i":
+                    return lit_of(do("id %d %d %d" % (f, t, d)))
+                if exact:
+                    return lit_of(do("rd %d %d %s,0/1" % (f, t, rat(d))))
+                return lit_of(do("rd %d %d %s,%s" % (f, t, rat(Fraction(d) + rng.choice([0, 0, Fraction(1, 2)])), rat(rng.choice([0, 0, -1])))))
+            rungs = [edge(a, b, ds[0]), edge(a, b, ds[1])]
+            if rng.random() < 0.5:
+                # the third tightening of (a, b) comes through a path a -> m -> b
+                m = tp()
+                p1 = rng.randint(0, ds[2])
+                rungs.append(("path", edge(a, m, p1), edge(m, b, ds[2] - p1)))
+                rungs.append(edge(a, b, ds[3]))
+            else:
+                rungs += [edge(a, b, ds[2]), edge(a, b, ds[3])]
+            contra = edge(b, a, -(d0 + 2), exact=True)
+        else:
+            k = rng.randint(4, 5)
+            st = do("ov " + " ".join(map(str, rng.sample(range(6), k))))
+            ls = [int(x) for x in st.get("lits", "").split(",") if x]
+            if st.get("rc", "skip") == "skip" or len(ls) < 4:
+                continue
+            rng.shuffle(ls)
+            rungs = [l ^ 1 for l in ls[:3]]          # values removed one after the other
+            contra = ls[0]
+            ovs.append(int(st["rc"]))
+        flat = []
+        for r in rungs:
+            flat += list(r[1:]) if isinstance(r, tuple) else [r]
+        if any(l is None or l <= 1 for l in flat) or contra is None or contra <= 1:
+            continue
+        for l in flat:
+            net.atoms.append((gth, l))
+        d0l, dl, el, fl, e2l = newb(), newb(), newb(), newb(), newb()
+        # d -> two or three rungs above the loosest one, mostly loose before tight (watch order = propagation order)
+        upper = rungs[1:]
+        k = min(len(upper), rng.choice([2, 2, 3]))
+        idx = list(range(k)) if rng.random() < 0.6 else sorted(rng.sample(range(len(upper)), k))
+        chosen = [upper[i] for i in idx]
+        if rng.random() < 0.2:
+            chosen = list(reversed(chosen))
+        gclauses.append("c %d %d" % (d0l ^ 1, flat[0]))
+        for r in chosen:
+            for l in (r[1:] if isinstance(r, tuple) else [r]):
+                gclauses.append("c %d %d" % (dl ^ 1, l))
+        gclauses.append("c %d %d" % (el ^ 1, fl))
+        gclauses.append("c %d %d %d" % (el ^ 1, fl ^ 1, d0l ^ 1))
+        gclauses.append("c %d %d" % (e2l ^ 1, contra))
+        net.gadgets.append(dict(th=gth, d0=d0l, d=dl, e=el, e2=e2l, rungs=flat))
+        net.ladders.append(flat)
+
     # --- clauses linking everything ---------------------------------------------------------------------------------
     alits = [l for _, l in net.atoms]
     pool = alits + net.bools + net.ov_lits
 
     def rl(p=None):
         return rng.choice(p or pool) ^ rng.randint(0, 1)
+    for gc in gclauses:
+        do(gc)
     # chains along the ladders: loose -> tighter (several updates of one bound / cell within one level)
     for lad in net.ladders:
         if len(lad) >= 2 and rng.random() < 0.45:
@@ -343,21 +445,23 @@ def build(rng, drv, small=False):
 
 
 WEIGHTS = {
-    "mixed": dict(a=50, p=3, o=18, n=8, k=12, s=3, c=2, L=18),
-    "deep": dict(a=70, p=2, o=8, n=6, k=6, s=1, c=1, L=22),
-    "updown": dict(a=42, p=2, o=34, n=5, k=8, s=2, c=1, L=30),
-    "nextcheck": dict(a=35, p=2, o=8, n=26, k=26, s=2, c=1, L=10),
+    "mixed": dict(a=50, p=3, o=18, n=8, k=12, s=3, c=2, L=18, G=7),
+    "deep": dict(a=70, p=2, o=8, n=6, k=6, s=1, c=1, L=22, G=6),
+    "updown": dict(a=42, p=2, o=34, n=5, k=8, s=2, c=1, L=30, G=8),
+    "nextcheck": dict(a=35, p=2, o=8, n=26, k=26, s=2, c=1, L=10, G=6),
 }
+ENDINGS = ["pop", "next", "conflict", "tconflict", "none"]
 PROFILES = ["mixed", "mixed", "deep", "deep", "updown", "updown", "nextcheck"]
 
 
-def history(rng, drv, net, target_ops=None, profile=None, unsteered=0.04, max_depth=12, want_obs=True):
-    """Appends a history to the network living in `drv`.  Returns (profile, hist, answers, obs) where obs[i] is the
-    answer of "obs" sent after hist[i] (obs[-1 .. ] of the construction is the caller's business)."""
+def history(rng, drv, net, target_ops=None, profile=None, unsteered=0.04, max_depth=12, want_obs=True, first=()):
+    """Appends a history to the network living in `drv`.  Returns (profile, hist, answers, obs, mus) where obs[i] / mus[i]
+    are the answers of "obs" / "mu" sent after hist[i] (obs of the construction is the caller's business).
+    first: gadget scenarios (gadget index, ending) run before anything else."""
     profile = profile or rng.choice(PROFILES)
     w = WEIGHTS[profile]
     target = target_ops or rng.randint(25, 110)
-    hist, answers, obs = [], [], []
+    hist, answers, obs, mus = [], [], [], []
     st = parse(net.answers[-1])
     state = dict(dead=net.dead)
     lad_pos = {}
@@ -368,12 +472,64 @@ def history(rng, drv, net, target_ops=None, profile=None, unsteered=0.04, max_de
         answers.append(a)
         if want_obs:
             obs.append(drv.send("obs"))
+            mus.append(drv.send("mu"))
         s = parse(a)
         if s.get("dead") == "1":
             state["dead"] = True
         return s
 
-    ops = "apoknscL"
+    def scenario(g, ending, st):
+        """[d0] [x] d [y] then pop / next / a conflict that backjumps below d's level"""
+        def und(l):
+            v = st.get("vals", "")
+            return (l >> 1) < len(v) and v[l >> 1] == "U"
+
+        def ok(st):
+            return st.get("rc") == "1" and st.get("dead") == "0" and int(st.get("q", 0)) == 0
+
+        def filler(st):
+            v = st.get("vals", "")
+            fr = [i for i in range(1, len(v)) if v[i] == "U" and 2 * i + 1 not in (g["d0"], g["d"], g["e"], g["e2"])]
+            return do("a %d" % (2 * rng.choice(fr) + rng.randint(0, 1))) if fr else st
+        if not und(g["d"]) or int(st.get("lvl", 0)) > max_depth - 4 or int(st.get("q", 0)) > 0:
+            return st
+        if und(g["d0"]) and rng.random() < 0.75:
+            st = do("a %d" % g["d0"])
+            if not ok(st):
+                return st
+            if rng.random() < 0.3:
+                st = filler(st)
+                if not ok(st):
+                    return st
+        if not und(g["d"]):
+            return st
+        st = do("a %d" % g["d"])
+        if not ok(st):
+            return st
+        if rng.random() < 0.3:
+            st = filler(st)
+            if not ok(st):
+                return st
+        if ending == "pop":
+            st = do("o")
+            if st.get("rc") == "1" and rng.random() < 0.5 and int(st.get("lvl", 0)) > 0:
+                st = do("o")
+        elif ending == "next":
+            st = do("n")
+        elif ending == "conflict" and und(g["e"]):
+            st = do("a %d" % g["e"])
+        elif ending == "tconflict" and und(g["e2"]):
+            st = do("a %d" % g["e2"])
+        return st
+
+    for gi, ending in first:
+        if state["dead"] or gi >= len(net.gadgets):
+            break
+        st = scenario(net.gadgets[gi], ending, st)
+        if st.get("rc") == "skip":
+            st = do("p")
+
+    ops = "apoknscLG"
     ww = [w[o] for o in ops]
     nv = net.nvars
     while len(hist) < target and not state["dead"]:
@@ -388,6 +544,8 @@ def history(rng, drv, net, target_ops=None, profile=None, unsteered=0.04, max_de
         if steer:
             if q > 0 and o != "p":
                 o = "p"
+            elif o == "G" and not net.gadgets:
+                o = "a" if free and lvl < max_depth else "o" if lvl > 0 else "k"
             elif o in "aL" and (not free or lvl >= max_depth):
                 o = rng.choice("onk") if lvl > 0 else rng.choice("ks")
             elif o == "o" and lvl == 0:
@@ -396,7 +554,12 @@ def history(rng, drv, net, target_ops=None, profile=None, unsteered=0.04, max_de
                 o = rng.choice("aao") if free else "o"
             elif o == "n" and lvl == 0:
                 o = "a" if free else "k"
-        if o == "L":     # next rung of a ladder: tighten the same bound / cell once more, one level deeper
+        if o == "G":
+            if net.gadgets:
+                st = scenario(rng.choice(net.gadgets), rng.choice(ENDINGS), st)
+            else:
+                st = do("p")
+        elif o == "L":     # next rung of a ladder: tighten the same bound / cell once more, one level deeper
             cands = [(i, [l for l in lad if undef(l)]) for i, lad in enumerate(net.ladders)]
             cands = [(i, ls) for i, ls in cands if ls]
             if cands:
@@ -430,4 +593,4 @@ def history(rng, drv, net, target_ops=None, profile=None, unsteered=0.04, max_de
             st = do("p")
             if st.get("rc") == "skip":
                 break
-    return profile, hist, answers, obs
+    return profile, hist, answers, obs, mus
